@@ -47,6 +47,11 @@ def runLoc (c : Case) : Res :=
         let mut classes : List String := []
         for r in results do
           match r with
+          | _ :: hint :: _ =>
+            if (hint.splitOn "@b").length == 2 then
+              stats := (if hint.endsWith "s" then "loc.answer.scan_fallback" else "loc.answer.capped_walk") :: stats
+          | _ => pure ()
+          match r with
           | _ :: hint :: "in" :: cidS :: _ =>
             checked := checked + 1
             classes := "in" :: classes
